@@ -15,6 +15,9 @@ type Op struct {
 	// time                   : empty block, Secs later (simulated.Backend.AdjustTime)
 	// leaf                   : bridge.getLeafValue(LT, ONet, OAddr, DNet, DAddr, Amount, MH)   (pure)
 	// l1leaf                 : ger.getLeafValue(Ger, BH, TS)                                    (pure)
+	// verify                 : the bridge leaves seen so far (as the repository hashes them) are appended to a REAL aggkit
+	//                          append-only tree; for versions k and indices j < k drawn from VSeed the tree's GetProof(j, root_k)
+	//                          is handed to bridge.verifyMerkleProof / calculateRoot (pure), once as served and once tampered
 	K         string `json:"k"`
 	DNet      uint32 `json:"dnet,omitempty"`
 	DAddr     string `json:"daddr,omitempty"`  // hex20
@@ -32,6 +35,7 @@ type Op struct {
 	Ger       string `json:"ger,omitempty"` // hex32
 	BH        string `json:"bh,omitempty"`  // hex32
 	TS        uint64 `json:"ts,omitempty"`
+	VSeed     uint64 `json:"vseed,omitempty"`
 }
 
 type In struct {
@@ -174,6 +178,7 @@ func boundaryCase() In {
 		Op{K: "rollup", Root: "00000000000000000000000000000000000000000000000000000000000000ff", SameBlock: true},
 		Op{K: "message", DNet: 9, DAddr: zero20, Amount: "0", Force: true, Meta: ""},
 		Op{K: "updateger"},
+		Op{K: "verify", VSeed: 1},
 	)
 	return In{KeySeed: 1, Ops: ops}
 }
@@ -211,7 +216,11 @@ func randomCase(r *hlib.Rng, nDep int) In {
 			}
 			in.Ops = append(in.Ops, op)
 		}
+		if d > 0 && r.Intn(25) == 0 {
+			in.Ops = append(in.Ops, Op{K: "verify", VSeed: r.U64()})
+		}
 	}
+	in.Ops = append(in.Ops, Op{K: "verify", VSeed: r.U64()})
 	return in
 }
 
